@@ -69,8 +69,9 @@ def op_const_int(o):
 
 # ------------------------------------------------------------------------------------ body
 class Body:
-    def __init__(self, rec):
+    def __init__(self, rec, prog=None):
         self.rec = rec
+        self.prog = prog
         self.id = rec["id"]
         self.crate = rec["crate"]
         self.kind = rec["kind"]
@@ -112,7 +113,10 @@ class Body:
             d = defaultdict(list)
             for bi, b in enumerate(self.blocks):
                 for si, st in enumerate(b["st"]):
-                    if st["s"] == "assign" and place_is_local(st["p"]):
+                    if st["s"] == "assign" and "inl" in st:
+                        # result of a spliced (transparent) helper: symbolically still a call (rules/inline.py)
+                        d[st["p"][0]].append((bi, si, "call" if place_is_local(st["p"]) else "partial", st["inl"]))
+                    elif st["s"] == "assign" and place_is_local(st["p"]):
                         d[st["p"][0]].append((bi, si, "assign", st["r"]))
                     elif st["s"] == "assign":
                         d[st["p"][0]].append((bi, si, "partial", st))
@@ -499,7 +503,7 @@ def bool_edges(body, bi, e, targets, otherwise, want):
 
 # ------------------------------------------------------------------------------------ program
 class Program:
-    def __init__(self, facts_dir):
+    def __init__(self, facts_dir, inline=True):
         self.dir = facts_dir
         self.bodies = {}
         self.adts = {}
@@ -511,7 +515,7 @@ class Program:
                     r = json.loads(line)
                     k = r["rec"]
                     if k == "body":
-                        self.bodies[r["id"]] = Body(r)
+                        self.bodies[r["id"]] = Body(r, self)
                     elif k == "adt":
                         self.adts[r["id"]] = r
                     elif k == "static":
@@ -523,6 +527,59 @@ class Program:
         self._be = {}
         self._impls = None
         self._closures_of = None
+        self.hidden = {}
+        self.inlined_into = {}
+        if inline:
+            self._splice_transparent()
+
+    def _splice_transparent(self):
+        """functions unknown to the rule tables (not in rules/known_fns.txt) are spliced into their callers"""
+        from . import inline as I
+        known = I.load_known()
+        if known is None:
+            return
+        crates = set(x[len("#crate "):] for x in known if x.startswith("#crate "))
+        T = {i for i, b in self.bodies.items()
+             if b.kind in ("fn", "assoc_fn") and i not in known and b.crate in crates and not b.rec.get("impl_of")
+             and not b.rec.get("no_mangle") and not str(b.rec.get("abi", "")).startswith("C")}
+        if not T:
+            return
+        raw = {i: b.rec for i, b in self.bodies.items()}
+        changed = {}
+        for i, rec in raw.items():
+            if i in T:
+                continue
+            new, inl = I.inline_record(rec, raw.get, lambda d: d in T)
+            if inl:
+                changed[i] = new
+                for h in inl:
+                    self.inlined_into.setdefault(h, set()).add(i)
+        for i, rec in changed.items():
+            self.bodies[i] = Body(rec, self)
+        # a transparent function that is no longer referenced anywhere is hidden from iteration
+        refs = set()
+        for i, b in self.bodies.items():
+            if i in T:
+                continue
+            for blk in b.blocks:
+                t = blk["term"]
+                if t["t"] == "call":
+                    d = t["f"].get("def")
+                    if d in T:
+                        refs.add(d)
+                    for a in t["args"]:
+                        if a.get("fn") in T:
+                            refs.add(a["fn"])
+                for st in blk["st"]:
+                    if st["s"] == "assign":
+                        r = st["r"]
+                        for o in ([r.get("o")] if isinstance(r.get("o"), dict) else []) + list(r.get("ops", [])):
+                            if isinstance(o, dict) and o.get("fn") in T:
+                                refs.add(o["fn"])
+        # transparent helpers referenced only from other transparent helpers that are themselves spliced are covered
+        for h in T:
+            if h in self.inlined_into and h not in refs:
+                self.hidden[h] = self.bodies.pop(h)
 
     def body(self, id):
         return self.bodies.get(id)
@@ -549,10 +606,15 @@ class Program:
                 if b.kind == "closure" and b.parent:
                     m[b.parent].append(b.id)
             self._closures_of = m
-        return self._closures_of.get(fid, [])
+        out = list(self._closures_of.get(fid, []))
+        b = self.bodies.get(fid)
+        for h in (b.rec.get("inlined", []) if b is not None else []):
+            out += self._closures_of.get(h, [])
+        return out
 
     def promoted_of(self, fid):
-        return [b for i, b in self.bodies.items() if i.startswith(fid + "::{promoted#")]
+        ids = [fid] + (self.bodies[fid].rec.get("inlined", []) if fid in self.bodies else [])
+        return [b for i, b in self.bodies.items() if any(i.startswith(x + "::{promoted#") for x in ids)]
 
     # ---- per-block call targets and effects
     def block_calls(self, b):
